@@ -16,7 +16,9 @@ from harness.props.c09 import coq_jv
 TOKCLS = "streamflow.core.workflow.Token"
 RESERVED = {"list": "streamflow.workflow.token.ListToken", "obj": "streamflow.workflow.token.ObjectToken",
             "term": "streamflow.workflow.token.TerminationToken",
-            "iter": "streamflow.workflow.token.IterationTerminationToken"}
+            "iter": "streamflow.workflow.token.IterationTerminationToken",
+            "job": "streamflow.workflow.token.JobToken"}
+JOBCLS = "streamflow.core.workflow.Job"
 COMB = {"dot": "DotProductCombinator", "cart": "CartesianProductCombinator", "loop": "LoopCombinator",
         "loopterm": "LoopTerminationCombinator"}
 
@@ -34,6 +36,10 @@ def coq_ptok(t):
         return f"(PTerm {coq_Z(t['status'])})"
     if k == "iter":
         return f"(PIter {coq_str(t['tag'])})"
+    if k == "job":
+        return (f"(PJob {coq_str(t['tag'])} {coq_bool(t['rec'])} {coq_str(t['name'])} {coq_Z(t['wfid'])} "
+                f"{coq_list([coq_jv(x) for x in t['dirs']])} {coq_list([coq_str(a) for a, _ in t['d']])} "
+                f"{coq_list([coq_ptok(x) for _, x in t['d']])})")
     raise ValueError(k)
 
 
@@ -55,7 +61,7 @@ def tok_in_model(t):
         return json_ok(t["v"]) and t["cls"] == TOKCLS
     if k == "list":
         return all(tok_in_model(x) for x in t["l"])
-    if k == "obj":
+    if k in ("obj", "job"):
         return all(tok_in_model(x) for _, x in t["d"])
     return k in ("term", "iter")
 
@@ -112,11 +118,17 @@ def coq_pwf(d):
             k = "KScatter"
         elif st["cls"] == "GatherStep":
             k = f"(KGather {coq_Z(st['depth'])})"
-        elif st["cls"] == "CombinatorStep":
+        elif st["cls"] in ("CombinatorStep", "LoopCombinatorStep"):
             c = coq_pcomb(st["comb"])
             if c is None:
                 return None
-            k = f"(KComb {c})"
+            k = f"(KComb {coq_bool(st['cls'] == 'LoopCombinatorStep')} {c})"
+        elif st["cls"].startswith("Plain") and st["fcls"].startswith("harness.props.c08_classes."):
+            k = f"(KPlain {coq_str(st['fcls'])})"
+        elif st["cls"].startswith("JobIn") and st["fcls"].startswith("harness.props.c08_classes."):
+            k = f"(KJobIn {coq_str(st['fcls'])})"
+        elif st["cls"] == "ExecuteStep" and not st["procs"] and st["command"] is None:
+            k = f"(KExecute {coq_smap(st['conns'])})"
         else:
             return None
         steps.append(f"(mkstep {coq_str(st['name'])} {k} {coq_Z(st['status'])} {coq_smap(st['in'])} {coq_smap(st['out'])})")
@@ -148,11 +160,17 @@ def coq_wdb(t):
                 dp = f"(DScatter {coq_nat(params['size_port'])})"
             elif cls == "GatherStep":
                 dp = f"(DGather {coq_Z(params['depth'])} {coq_nat(params['size_port'])})"
-            elif cls == "CombinatorStep":
+            elif cls in ("CombinatorStep", "LoopCombinatorStep"):
                 c = coq_dcomb(params["combinator"])
                 if c is None:
                     return None
-                dp = f"(DCombP {c})"
+                dp = f"(DCombP {coq_bool(cls == 'LoopCombinatorStep')} {c})"
+            elif typ.startswith("harness.props.c08_classes.Plain") and params == {}:
+                dp = f"(DPlain {coq_str(typ)})"
+            elif typ.startswith("harness.props.c08_classes.JobIn") and list(params) == ["job_port"]:
+                dp = f"(DJobIn {coq_str(typ)} {coq_nat(params['job_port'])})"
+            elif cls == "ExecuteStep" and params["output_processors"] == {} and params["command"] is None:
+                dp = f"(DExecute {coq_nat(params['job_port'])} {coq_smap(params['output_connectors'])})"
             else:
                 return None
             st.append(f"(mksrow {coq_str(name)} {coq_nat(w)} {coq_Z(status)} {dp})")
@@ -160,6 +178,68 @@ def coq_wdb(t):
             de.append(f"(mkdrow {coq_nat(step)} {coq_nat(port)} {coq_bool(typ == 0)} {coq_str(name)})")
         return f"(mkwdb {coq_list(wf)} {coq_list(po)} {coq_list(st)} {coq_list(de)})"
     except (KeyError, TypeError, AssertionError):
+        return None
+
+
+def coq_ostr(x):
+    return coq_opt(x, coq_str)
+
+
+def coq_pdeploy(d):
+    """from the harness dump of a DeploymentConfig (also used for table rows brought to the same shape)"""
+    if not (json_ok(d["config"]) and json_ok(d["policy"][2])):
+        return None
+    wr = "None" if d["wraps"] is None else f"(Some ({coq_str(d['wraps'][0])}, {coq_ostr(d['wraps'][1])}))"
+    return (f"(mkdeploy {coq_str(d['name'])} {coq_str(d['type'])} {coq_jv(d['config'])} {coq_bool(d['external'])} "
+            f"{coq_bool(d['lazy'])} ({coq_str(d['policy'][0])}, {coq_str(d['policy'][1])}, {coq_jv(d['policy'][2])}) "
+            f"{coq_ostr(d['workdir'])} {wr})")
+
+
+def coq_pbinding(b):
+    ts = []
+    for t in b["targets"]:
+        if t["local"]:
+            ts.append(f"(PLocal {coq_str(t['workdir'])})")
+        else:
+            d = coq_pdeploy(t["dep"])
+            if d is None:
+                return None
+            ts.append(f"(PTarget {d} {coq_Z(t['locations'])} {coq_ostr(t['service'])} {coq_str(t['workdir'])})")
+    fs = []
+    for f in b["filters"]:
+        if not json_ok(f["config"]):
+            return None
+        fs.append(f"(mkfilter {coq_str(f['name'])} {coq_str(f['type'])} {coq_jv(f['config'])})")
+    return f"(mkbinding {coq_list(ts)} {coq_list(fs)})"
+
+
+def coq_cdb(t):
+    try:
+        deps, tgts, flts = [], [], []
+        for i, (rid, name, typ, config, external, lazy, policy, workdir, wraps) in enumerate(t["deployment"]):
+            if rid != i + 1:
+                return None
+            pol = json.loads(policy)
+            wr = json.loads(wraps) if wraps else None
+            d = coq_pdeploy({"name": name, "type": typ, "config": json.loads(config), "external": bool(external),
+                             "lazy": bool(lazy), "policy": [pol["name"], pol["type"], pol["config"]], "workdir": workdir,
+                             "wraps": None if wr is None else [wr["deployment"], wr.get("service")]})
+            if d is None:
+                return None
+            deps.append(d)
+        for i, (rid, dep, typ, locations, service, workdir, params) in enumerate(t["target"]):
+            if rid != i + 1 or json.loads(params) != {}:
+                return None
+            local = typ.endswith(".LocalTarget")
+            if not local and not typ.endswith(".Target"):
+                return None
+            tgts.append(f"(mktgrow {coq_bool(local)} {coq_nat(dep)} {coq_Z(locations)} {coq_ostr(service)} {coq_str(workdir)})")
+        for i, (rid, name, typ, config) in enumerate(t["filter"]):
+            if rid != i + 1 or not json_ok(json.loads(config)):
+                return None
+            flts.append(f"(mkfilter {coq_str(name)} {coq_str(typ)} {coq_jv(json.loads(config))})")
+        return f"(mkcdb {coq_list(deps)} {coq_list(tgts)} {coq_list(flts)})"
+    except (KeyError, TypeError, ValueError, AssertionError):
         return None
 
 
@@ -175,30 +255,40 @@ class C08(Prop):
                  "+ vm_compute correspondence on the real token table + property oracle on real save/load of workflows")
     LEVEL_TEXT = (
         "Theorems (Coq, closed under the global context): load(save w) = w for every workflow of the modelled classes "
-        "(name, config, input/output ports, ports of the generic classes, Scatter/Gather/Combinator steps with status, "
-        "wiring through the dependency table keyed by (step, port), combinator trees of any depth) in the domain ok_wf "
-        "(dict keys unique, every step refers to existing ports and to each under one name only) on every consistent "
-        "prior database; the WorkflowBuilder copy has the same structure with statuses reset; refutation witness for a "
-        "port used under two names by one step; load(save t) = t for every token tree of any depth and width (Token with "
-        "any JSON value, ListToken, ObjectToken, TerminationToken, IterationTerminationToken) on any prior table; saving "
-        "never changes what stored records load to; with the deep-copying getters a change inside one handed-out row "
-        "changes no other handed-out row, cached cell or stored record; refutation witness for the pre-fix shallow "
-        "copies. Tied to /repo on every case: the model's loaders run on the rows the real save wrote and are compared "
-        "with the real load; the model's saves are compared with those rows (ids renamed for tokens, steps matched by "
-        "name). Other step/port classes, JobToken, deployment/target/filter configurations, CWL entities and the "
-        "absence of persistent ids in the builder copy are NOT modelled (the last one is judged by the oracle).")
-    LEVEL_NOTE = ("Partial: the workflow theorem covers Scatter/Gather/Combinator steps and parameterless ports; dict and "
-                  "row order and the interleaving of concurrent INSERTs are abstracted (compared as maps/sets); "
-                  "independence is proved at the database layer only (object construction from rows is exercised, not "
-                  "modelled). Trusted: Coq kernel + vm_compute; hand-written Persist/WfModel.v, Persist/Model.v and "
+        "(name, config, input/output ports, ports of the generic classes; Scatter, Gather, Combinator and LoopCombinator "
+        "steps with combinator trees of any depth, parameterless step classes (subclasses of Transformer, ConditionalStep, "
+        "LoopOutputStep), job-port classes (subclasses of TransferStep, InputInjectorStep), ExecuteStep with its output "
+        "connectors; status; wiring through the dependency table keyed by (step, port)) in the domain ok_wf (dict keys "
+        "unique, every step refers to existing ports and to each under one name only) on every consistent prior database; "
+        "the WorkflowBuilder copy has the same structure with statuses reset; refutation witness for a port used under two "
+        "names by one step; load(save x) = x for DeploymentConfig, Target, LocalTarget, FilterConfig and a ScheduleStep's "
+        "BindingConfig on any prior tables; load(save t) = t for every token tree of any depth and width (Token with any "
+        "JSON value, ListToken, ObjectToken, JobToken with its Job and input tokens, TerminationToken, "
+        "IterationTerminationToken); saving never changes what stored records load to; with the deep-copying getters a "
+        "change inside one handed-out row changes no other handed-out row, cached cell or stored record; refutation witness "
+        "for the pre-fix shallow copies. Tied to /repo on every case: the model's loaders run on the rows the real save "
+        "wrote and are compared with the real load; the model's saves are compared with those rows. DeployStep and "
+        "ScheduleStep as steps (their configurations are modelled separately), commands and output processors, hardware "
+        "requirements, CWL entities and the absence of persistent ids in the builder copy are NOT modelled (Deploy/"
+        "ScheduleStep workflows and the id check are judged by the oracle on the real code).")
+    LEVEL_NOTE = ("Partial: DeployStep/ScheduleStep rows, commands/processors, hardware requirements, port classes with "
+                  "parameters and CWL entities are outside the workflow theorem; dict and row order and the interleaving "
+                  "of concurrent INSERTs are abstracted (compared as maps/sets); shared configuration objects are saved "
+                  "once by the code and per occurrence by the tree model; independence is proved at the database layer "
+                  "only. Trusted: Coq kernel + vm_compute; hand-written Persist/{WfModel,CfgModel,Model}.v and "
                   "DbCache/Model.v; SQLite/aiosqlite/json/asyncio. No axioms.")
     RULE = ("tok: random token trees (depth<=4, width<=4, JSON values incl. unicode, nested containers, empty "
-            "containers, all five classes); wf: random graphs of 1-6 ports and 0-5 steps (scatter, gather with depth, "
-            "combinator steps with nested dot/cartesian/loop/loop-termination trees), tokens on ports, output ports, "
-            "nested config. Non-trivial = a token tree with a container, or a workflow with >=1 step. Distinct = "
+            "containers, all six classes incl. JobToken with its Job and input tokens); wf: random graphs of 1-6 ports and 0-5 steps (scatter, gather with depth, "
+            "combinator and loop-combinator steps with nested dot/cartesian/loop/loop-termination trees, concrete "
+            "subclasses of Transformer/ConditionalStep/LoopOutputStep/TransferStep/InputInjectorStep, ExecuteStep with "
+            "output connectors, and -- oracle only -- DeployStep and ScheduleStep with their deployment/binding "
+            "configurations), tokens on ports, input/output ports, nested config; cfg: bindings of 0-3 targets (plain and "
+            "local, deployments with wraps/policy/workdir variants) and 0-2 filters. Non-trivial = a token tree with a container, or a workflow with >=1 step. Distinct = "
             "distinct canonical JSON.")
-    TRUSTED = ("model: Persist/Model.v (Token.save/_save_value/load/_load of the five generic token classes over the "
-               "token table) is hand-written; SQLite, aiosqlite, json, asyncio.gather ordering are not verified",)
+    TRUSTED = ("models: Persist/Model.v (token classes incl. JobToken/Job over the token table), Persist/WfModel.v (Workflow, "
+               "Port, Step and the step classes listed in LEVEL_TEXT over the workflow/port/step/dependency tables), "
+               "Persist/CfgModel.v (DeploymentConfig, Target, LocalTarget, FilterConfig, BindingConfig) are hand-written; "
+               "SQLite, aiosqlite, json, asyncio.gather ordering are not verified",)
     ASSUMPTIONS = ("token trees share no token object between two containers",
                    "JSON values without floats/NaN; dict keys are strings (JSON itself does not round-trip others)",
                    "a step refers to a port under one name only (known finding otherwise; replayed from the corpus)",
@@ -228,14 +318,18 @@ class C08(Prop):
             if k < 0.88:
                 return {"k": "term", "status": rng.choice([3, 4, 5, 6])}
             return {"k": "iter", "tag": self._tag(rng)}
-        if r < 0.72:
+        if r < 0.66:
             return {"k": "list", "tag": self._tag(rng), "l": [self._tok(rng, d + 1) for _ in range(rng.randrange(0, 4))]}
         ks = []
         for _ in range(rng.randrange(0, 4)):
             s = self._str(rng)
             if s not in ks:
                 ks.append(s)
-        return {"k": "obj", "tag": self._tag(rng), "d": [[s, self._tok(rng, d + 1)] for s in ks]}
+        if r < 0.84:
+            return {"k": "obj", "tag": self._tag(rng), "d": [[s, self._tok(rng, d + 1)] for s in ks]}
+        return {"k": "job", "tag": self._tag(rng), "rec": rng.random() < 0.3, "name": "/step" + self._str(rng) + "/0.1",
+                "wfid": rng.randrange(1, 5), "dirs": [rng.choice([None, "/tmp/é", "/a b"]) for _ in range(3)],
+                "d": [[s, self._tok(rng, d + 1)] for s in ks]}
 
     def _comb(self, rng, names, d=0):
         kind = rng.choice(["dot", "cart", "loop", "loopterm"])
@@ -258,14 +352,38 @@ class C08(Prop):
         nports = rng.randrange(1, 7)
         ports = [{"name": f"port{i}", "cls": rng.choice(["Port", "Port", "JobPort", "ConnectorPort"])} for i in range(nports)]
         steps = []
+        with_cfg = rng.random() < 0.3       # DeployStep / ScheduleStep: judged by the oracle only
         for i in range(rng.randrange(0, 6)):
-            kind = rng.choice(["scatter", "gather", "comb"])
+            kind = rng.choice(["scatter", "gather", "comb", "comb", "loopcomb", "plain", "plain", "jobin", "execute"]
+                              + (["deploy", "schedule"] * 2 if with_cfg else []))
             st = {"name": f"/step{i}" + rng.choice(["", "-scatter", "/é"]), "kind": kind,
                   "in": {}, "out": {}, "status": rng.choice([0, 0, 1, 2, 4, 5, 3])}
             for j in range(rng.randrange(0, 3)):
                 st["in"][rng.choice(["a", "b", "in", "x y"]) + str(j)] = rng.randrange(nports)
             for j in range(rng.randrange(0, 3)):
                 st["out"][rng.choice(["o", "out", "é"]) + str(j)] = rng.randrange(nports)
+            if kind == "plain":
+                st["cls"] = rng.choice(["PlainTransformer", "PlainConditional", "PlainLoopOutput"])
+                if st["cls"] == "PlainLoopOutput":
+                    st["in"] = dict(list(st["in"].items())[:1])
+                    st["out"] = dict(list(st["out"].items())[:1])
+            elif kind == "jobin":
+                st["cls"] = rng.choice(["JobInTransfer", "JobInInjector"])
+                st["out"] = dict(list(st["out"].items())[:1])
+            elif kind == "execute":
+                st["conns"] = {k: self._str(rng) for k in list(st["out"])[:rng.randrange(0, 3)]}
+            elif kind == "deploy":
+                st["dep"] = self._dep(rng)
+                st["in"], st["out"] = {}, {}
+            elif kind == "schedule":
+                b = self._cfg(rng)
+                st["binding"] = {"targets": b["targets"], "filters": b["filters"]}
+                st["prefix"] = rng.choice([None, "/pre fix"])
+                st["dirs"] = [rng.choice([None, "/d é"]) for _ in range(3)]
+                st["out"] = {}
+                st["in"] = {"__connector__" + k[:-1]: v for k, v in st["in"].items()}
+            elif kind in ("comb", "loopcomb"):
+                st["comb"] = self._comb(rng, [])
             if kind in ("scatter", "gather"):
                 st["size_port"] = rng.randrange(nports)
                 st["in"] = dict(list(st["in"].items())[:1])
@@ -275,6 +393,10 @@ class C08(Prop):
             # the dependency table is keyed by (step, port): a step refers to a port under one name only
             free = [p for p in range(nports) if p != st.get("size_port")]
             rng.shuffle(free)
+            if kind in ("jobin", "execute", "deploy", "schedule"):      # the port the constructor wires itself
+                if not free:
+                    continue
+                st["own_port"] = free.pop()
             for k in ("in", "out"):
                 for nm in list(st[k]):
                     if free:
@@ -290,10 +412,32 @@ class C08(Prop):
         return {"f": "wf", "name": rng.choice(["wf", "w é", "/a/b"]), "config": {"cfg": self._json(rng), "l": [self._json(rng)]},
                 "ports": ports, "steps": steps, "tokens": toks, "output_ports": outp, "input_ports": inp}
 
+    def _dep(self, rng):
+        return {"name": self._str(rng) or "d", "type": rng.choice(["local", "docker", "ssh", "slurm"]),
+                "config": rng.choice([None, {}, {"image": "x", "volumes": [self._json(rng, 1)]}, {"k": self._json(rng)}]),
+                "external": rng.random() < 0.5, "lazy": rng.random() < 0.5,
+                "policy": rng.choice([None, {"name": "p", "type": "data_locality", "config": {"a": [1]}}]),
+                "workdir": rng.choice([None, "/w d", "/é"]),
+                "wraps": rng.choice([None, None, {"deployment": "outer", "service": None},
+                                     {"deployment": "o é", "service": "svc"}])}
+
+    def _cfg(self, rng):
+        ts = []
+        for _ in range(rng.randrange(0, 4)):
+            if rng.random() < 0.25:
+                ts.append({"local": True, "workdir": rng.choice([None, "/tmp/x y"])})
+            else:
+                ts.append({"local": False, "dep": self._dep(rng), "locations": rng.randrange(1, 4),
+                           "service": rng.choice([None, "svc", "é"]), "workdir": rng.choice([None, "/t"])})
+        fs = [{"name": self._str(rng), "type": rng.choice(["shuffle", "matching"]),
+               "config": rng.choice([None, {}, {"filters": [self._json(rng, 1)]}])} for _ in range(rng.randrange(0, 3))]
+        return {"f": "cfg", "targets": ts, "filters": fs}
+
     def gen(self, rng, tier):
         n = {"quick": 150, "thorough": 1500, "extended": 800}[tier]
         cases = [{"f": "tok", "t": self._tok(rng)} for _ in range(n)]
         cases += [self._wf(rng) for _ in range(n // 2)]
+        cases += [self._cfg(rng) for _ in range(n // 3)]
         return cases
 
     # ---------------------------------------------------------------- implementation
@@ -301,8 +445,10 @@ class C08(Prop):
         import asyncio
         import os
 
+        from streamflow.core import deployment as dep
         from streamflow.core import utils
-        from streamflow.core.workflow import Status, Token, Workflow
+        from streamflow.core.config import BindingConfig, Config
+        from streamflow.core.workflow import Job, Status, Token, Workflow
         from streamflow.main import build_context
         from streamflow.persistence.loading_context import DefaultDatabaseLoadingContext, WorkflowBuilder
         from streamflow.workflow import combinator as comb
@@ -310,9 +456,11 @@ class C08(Prop):
         from streamflow.workflow import step as wstep
         from streamflow.workflow import token as wtoken
 
-        self.m = dict(asyncio=asyncio, os=os, utils=utils, Status=Status, Token=Token, Workflow=Workflow,
+        from harness.props import c08_classes as classes
+
+        self.m = dict(asyncio=asyncio, os=os, utils=utils, dep=dep, BindingConfig=BindingConfig, Config=Config, Job=Job, Status=Status, Token=Token, Workflow=Workflow,
                       build_context=build_context, DLC=DefaultDatabaseLoadingContext, WB=WorkflowBuilder,
-                      comb=comb, wport=wport, wstep=wstep, wtoken=wtoken)
+                      comb=comb, wport=wport, wstep=wstep, wtoken=wtoken, classes=classes)
         self.loop = asyncio.new_event_loop()
 
     def _ctx(self):
@@ -333,6 +481,10 @@ class C08(Prop):
             return wt.TerminationToken(m["Status"](t["status"]))
         if k == "iter":
             return wt.IterationTerminationToken(tag=t["tag"])
+        if k == "job":
+            job = m["Job"](name=t["name"], workflow_id=t["wfid"], inputs={a: self._mk_tok(x) for a, x in t["d"]},
+                           input_directory=t["dirs"][0], output_directory=t["dirs"][1], tmp_directory=t["dirs"][2])
+            return wt.JobToken(value=job, tag=t["tag"], recoverable=t["rec"])
         raise ValueError(k)
 
     def _dump_tok(self, tok):
@@ -342,6 +494,14 @@ class C08(Prop):
             return {"k": "list", "tag": tok.tag, "l": [self._dump_tok(x) for x in tok.value]}
         if isinstance(tok, wt.ObjectToken):
             return {"k": "obj", "tag": tok.tag, "d": [[a, self._dump_tok(x)] for a, x in tok.value.items()]}
+        if isinstance(tok, wt.JobToken):
+            j = tok.value
+            d = {"k": "job", "tag": tok.tag, "rec": bool(tok.recoverable), "name": j.name, "wfid": j.workflow_id,
+                 "dirs": [j.input_directory, j.output_directory, j.tmp_directory],
+                 "d": [[a, self._dump_tok(x)] for a, x in j.inputs.items()]}
+            if self.m["utils"].get_class_fullname(type(j)) != JOBCLS:
+                d["jobcls"] = self.m["utils"].get_class_fullname(type(j))
+            return d
         if isinstance(tok, wt.TerminationToken):
             return {"k": "term", "status": int(tok.value.value), "tag": tok.tag} if tok.tag != "0" else \
                 {"k": "term", "status": int(tok.value.value)}
@@ -362,6 +522,12 @@ class C08(Prop):
             for x in tok.value.values():
                 self._mut_tok(x)
             tok.value["intruder"] = self.m["Token"]("intruder")
+        elif isinstance(tok, wt.JobToken):
+            for x in tok.value.inputs.values():
+                self._mut_tok(x)
+            tok.value.inputs["intruder"] = self.m["Token"]("intruder")
+            tok.value.name += "x"
+            tok.value.tmp_directory = "/intruder"
         elif isinstance(tok.value, list):
             tok.value.append("intruder")
         elif isinstance(tok.value, dict):
@@ -444,8 +610,20 @@ class C08(Prop):
         for n, s in wf.steps.items():
             d = {"cls": type(s).__name__, "name": s.name, "status": int(s.status), "in": dict(s.input_ports),
                  "out": dict(s.output_ports), "wf_is_this": s.workflow is wf}
+            d["fcls"] = self.m["utils"].get_class_fullname(type(s))
             if isinstance(s, ws.GatherStep):
                 d["depth"] = s.depth
+            if isinstance(s, ws.ExecuteStep):
+                d["conns"] = dict(s.output_connectors)
+                d["procs"] = sorted(s.output_processors)
+                d["command"] = None if s.command is None else type(s.command).__name__
+            if isinstance(s, ws.DeployStep):
+                d["dep"] = self._dump_dep(s.deployment_config)
+            if isinstance(s, ws.ScheduleStep):
+                d["binding"] = self._dump_binding(s.binding_config)
+                d["prefix"] = s.job_prefix
+                d["dirs"] = [s.input_directory, s.output_directory, s.tmp_directory]
+                d["hw"] = None if s.hardware_requirement is None else type(s.hardware_requirement).__name__
             if isinstance(s, ws.CombinatorStep):
                 d["comb"] = self._dump_comb(s.combinator)
             if ids:
@@ -474,8 +652,28 @@ class C08(Prop):
                 elif st["kind"] == "gather":
                     s = wf.create_step(m["wstep"].GatherStep, name=st["name"], size_port=ports[st["size_port"]],
                                        depth=st["depth"])
+                elif st["kind"] in ("comb", "loopcomb"):
+                    s = wf.create_step(m["wstep"].CombinatorStep if st["kind"] == "comb" else m["wstep"].LoopCombinatorStep,
+                                       name=st["name"], combinator=self._mk_comb(st["comb"], wf))
+                elif st["kind"] == "plain":
+                    s = wf.create_step(getattr(m["classes"], st["cls"]), name=st["name"])
+                elif st["kind"] == "jobin":
+                    s = wf.create_step(getattr(m["classes"], st["cls"]), name=st["name"], job_port=ports[st["own_port"]])
+                elif st["kind"] == "execute":
+                    s = wf.create_step(m["wstep"].ExecuteStep, name=st["name"], job_port=ports[st["own_port"]])
+                    s.output_connectors = dict(st["conns"])
+                elif st["kind"] == "deploy":
+                    b = self._mk_binding({"targets": [{"local": False, "dep": st["dep"], "locations": 1, "service": None,
+                                                       "workdir": None}], "filters": []})
+                    s = wf.create_step(m["wstep"].DeployStep, name=st["name"], deployment_config=b.targets[0].deployment,
+                                       connector_port=ports[st["own_port"]])
+                elif st["kind"] == "schedule":
+                    s = wf.create_step(m["wstep"].ScheduleStep, name=st["name"], binding_config=self._mk_binding(st["binding"]),
+                                       connector_ports={}, job_port=ports[st["own_port"]], job_prefix=st["prefix"],
+                                       input_directory=st["dirs"][0], output_directory=st["dirs"][1],
+                                       tmp_directory=st["dirs"][2])
                 else:
-                    s = wf.create_step(m["wstep"].CombinatorStep, name=st["name"], combinator=self._mk_comb(st["comb"], wf))
+                    raise ValueError(st["kind"])
                 for n, p in st["in"].items():
                     s.add_input_port(n, ports[p])
                 for n, p in st["out"].items():
@@ -484,6 +682,14 @@ class C08(Prop):
             wf.output_ports = dict(case["output_ports"])
             wf.input_ports = dict(case["input_ports"])
             await wf.save(ctx.database)
+            if case.get("legacy"):
+                # a row written before input ports were persisted (b798f0b): no "input_ports" key in params
+                async with ctx.database.connection as db:
+                    async with db.execute("SELECT params FROM workflow WHERE id = ?", (wf.persistent_id,)) as cur:
+                        pr = json.loads((await cur.fetchone())[0])
+                    pr.pop("input_ports", None)
+                    await db.execute("UPDATE workflow SET params = ? WHERE id = ?", (json.dumps(pr), wf.persistent_id))
+                wf.input_ports = {}
             tables = await self._tables(ctx)
             toks = []
             for t in case["tokens"]:
@@ -514,6 +720,15 @@ class C08(Prop):
             for s in l1.steps.values():
                 s.input_ports["intruder"] = "x"
                 s.output_ports["intruder"] = "x"
+                if hasattr(s, "output_connectors"):
+                    s.output_connectors["intruder"] = "x"
+                if hasattr(s, "deployment_config"):
+                    s.deployment_config.config["intruder"] = 1
+                if hasattr(s, "binding_config"):
+                    for t in s.binding_config.targets:
+                        t.deployment.config["intruder"] = 1
+                    for f in s.binding_config.filters:
+                        f.config["intruder"] = 1
                 if hasattr(s, "combinator"):
                     stack = [s.combinator]
                     while stack:
@@ -530,7 +745,87 @@ class C08(Prop):
         finally:
             await ctx.database.close()
 
+    # -- configurations
+    def _mk_binding(self, case):
+        dm = self.m["dep"]
+        ts = []
+        for t in case["targets"]:
+            if t["local"]:
+                ts.append(dm.LocalTarget(workdir=t["workdir"]))
+            else:
+                d = t["dep"]
+                pol = d["policy"]
+                dc = dm.DeploymentConfig(
+                    name=d["name"], type=d["type"], config=copy.deepcopy(d["config"]), external=d["external"],
+                    lazy=d["lazy"],
+                    scheduling_policy=self.m["Config"](name=pol["name"], type=pol["type"], config=copy.deepcopy(pol["config"]))
+                    if pol else None,
+                    workdir=d["workdir"],
+                    wraps=dm.WrapsConfig(deployment=d["wraps"]["deployment"], service=d["wraps"]["service"])
+                    if d["wraps"] else None)
+                ts.append(dm.Target(deployment=dc, locations=t["locations"], service=t["service"], workdir=t["workdir"]))
+        fs = [dm.FilterConfig(name=f["name"], type=f["type"], config=copy.deepcopy(f["config"])) for f in case["filters"]]
+        return self.m["BindingConfig"](targets=ts, filters=fs)
+
+    def _dump_dep(self, d):
+        return {"name": d.name, "type": d.type, "config": copy.deepcopy(d.config), "external": bool(d.external),
+                "lazy": bool(d.lazy), "flag_types": [type(d.external).__name__, type(d.lazy).__name__],
+                "policy": [d.scheduling_policy.name, d.scheduling_policy.type, copy.deepcopy(d.scheduling_policy.config)],
+                "workdir": d.workdir, "wraps": None if d.wraps is None else [d.wraps.deployment, d.wraps.service]}
+
+    def _dump_binding(self, b):
+        dm = self.m["dep"]
+        return {"targets": [{"local": type(t) is dm.LocalTarget, "cls": type(t).__name__, "dep": self._dump_dep(t.deployment),
+                             "locations": t.locations, "service": t.service, "workdir": t.workdir} for t in b.targets],
+                "filters": [{"name": f.name, "type": f.type, "config": copy.deepcopy(f.config)} for f in b.filters]}
+
+    async def _cfg_tables(self, ctx):
+        qs = {"deployment": "SELECT id, name, type, config, external, lazy, scheduling_policy, workdir, wraps FROM deployment ORDER BY id",
+              "target": "SELECT id, deployment, type, locations, service, workdir, params FROM target ORDER BY id",
+              "filter": "SELECT id, name, type, config FROM filter ORDER BY id"}
+        out = {}
+        async with ctx.database.connection as db:
+            for t, q in qs.items():
+                async with db.execute(q) as cur:
+                    out[t] = [list(r) for r in await cur.fetchall()]
+        return out
+
+    async def _run_cfg(self, case):
+        ctx = self._ctx()
+        try:
+            b = self._mk_binding(case)
+            row = await b.save(ctx.database)
+            tables = await self._cfg_tables(ctx)
+            BC = self.m["BindingConfig"]
+            l1 = await BC.load(copy.deepcopy(row), self.m["DLC"](ctx.database))
+            l2 = await BC.load(copy.deepcopy(row), self.m["DLC"](ctx.database))
+            o = {"row": row, "tables": tables, "orig": self._dump_binding(b), "l1": self._dump_binding(l1),
+                 "l2": self._dump_binding(l2)}
+            for t in l1.targets:                       # the caller changes the first copy
+                t.deployment.config["intruder"] = 1
+                for v in t.deployment.config.values():
+                    if isinstance(v, list):
+                        v.append("intruder")
+                    elif isinstance(v, dict):
+                        v["intruder"] = 1
+                t.deployment.scheduling_policy.config["intruder"] = 1
+                t.deployment.name += "x"
+                t.workdir += "/intruder"
+            for f in l1.filters:
+                f.config["intruder"] = 1
+                for v in f.config.values():
+                    if isinstance(v, list):
+                        v.append("intruder")
+            o["l2_after"] = self._dump_binding(l2)
+            o["l3"] = self._dump_binding(await BC.load(copy.deepcopy(row), self.m["DLC"](ctx.database)))
+            o["tables_after"] = await self._cfg_tables(ctx) == tables
+            return o
+        finally:
+            await ctx.database.close()
+
     def impl_run(self, case):
+        if case["f"] == "cfg":
+            return self.loop.run_until_complete(self._run_cfg(case))
         if case["f"] == "tok":
             return self.loop.run_until_complete(self._run_tok(case))
         return self.loop.run_until_complete(self._run_wf(case))
@@ -554,6 +849,18 @@ class C08(Prop):
             if c(o["l3"]) != want or not o["rows_after"]:
                 return ("stored-record-unchanged", f"after mutating a loaded token a new load gives {c(o['l3'])[:300]}")
             return None
+        if case["f"] == "cfg":
+            strip = lambda d: json.loads(json.dumps(d, sort_keys=True).replace('"flag_types": ["int", "int"]', '"flag_types": ["bool", "bool"]'))
+            want = c(strip(o["orig"]))        # 0 / 1 in INTEGER columns compare equal to False / True
+            for k in ("l1", "l2"):
+                if c(strip(o[k])) != want:
+                    return ("config-roundtrip", f"loaded binding differs from the saved one: {self._diff(strip(o['orig']), strip(o[k]))}")
+            if c(strip(o["l2_after"])) != want:
+                return ("loads-independent", f"mutating one loaded binding changed the other: {self._diff(strip(o['orig']), strip(o['l2_after']))}")
+            if c(strip(o["l3"])) != want or not o["tables_after"]:
+                return ("stored-record-unchanged", f"after mutating a loaded binding a new load differs: {self._diff(strip(o['orig']), strip(o['l3']))}")
+            return None
+        o = json.loads(json.dumps(o).replace('"flag_types": ["int", "int"]', '"flag_types": ["bool", "bool"]'))
         want = c(o["orig"])
         for k in ("l1", "l2"):
             if c(o[k]) != want:
@@ -622,6 +929,17 @@ class C08(Prop):
                 v = f"(VStatus {coq_Z(val['status'])})"
             elif typ == RESERVED["iter"] and val is None:
                 v = "VNull"
+            elif typ == RESERVED["job"]:
+                try:
+                    j = val["job"]
+                    pr = j["params"]
+                    if j["type"] != JOBCLS or not all(isinstance(x, int) for x in pr["inputs"].values()):
+                        return None
+                    dirs = [pr["input_directory"], pr["output_directory"], pr["tmp_directory"]]
+                    v = (f"(VJob {coq_str(pr['name'])} {coq_Z(pr['workflow_id'])} {coq_list([coq_jv(x) for x in dirs])} "
+                         f"{coq_list([coq_str(k) for k in pr['inputs']])} {coq_list([coq_nat(x) for x in pr['inputs'].values()])})")
+                except (KeyError, TypeError):
+                    return None
             elif json_ok(val):
                 v = f"(VJson {coq_jv(val)})"
             else:
@@ -630,6 +948,14 @@ class C08(Prop):
         return coq_list(out)
 
     def coq_case(self, case, o):
+        if case["f"] == "cfg":
+            if "tables" not in o:
+                return None
+            orig, db = coq_pbinding(o["orig"]), coq_cdb(o["tables"])
+            if orig is None or db is None:
+                return None
+            return (f"XCfg (CCfg {orig} {db} {coq_list([coq_nat(x) for x in o['row']['targets']])} "
+                    f"{coq_list([coq_nat(x) for x in o['row']['filters']])} {coq_opt(coq_pbinding(o['l1']), lambda x: x)})")
         if case["f"] == "wf":
             if "tables" not in o:
                 return None
@@ -646,11 +972,18 @@ class C08(Prop):
         return f"XTok (CTok {coq_ptok(case['t'])} {rows} {coq_nat(o['root'])} {coq_opt(loaded, coq_ptok)})"
 
     def nontrivial(self, case):
+        if case["f"] == "cfg":
+            return len(case["targets"]) + len(case["filters"]) >= 1
         if case["f"] == "tok":
             return case["t"]["k"] in ("list", "obj")
         return len(case["steps"]) >= 1
 
     def shrink(self, case):
+        if case["f"] == "cfg":
+            for k in ("targets", "filters"):
+                for i in range(len(case[k])):
+                    yield {**case, k: case[k][:i] + case[k][i + 1:]}
+            return
         if case["f"] == "tok":
             t = case["t"]
             if t["k"] == "list":
@@ -658,7 +991,7 @@ class C08(Prop):
                     yield {"f": "tok", "t": x}
                 for i in range(len(t["l"])):
                     yield {"f": "tok", "t": {**t, "l": t["l"][:i] + t["l"][i + 1:]}}
-            elif t["k"] == "obj":
+            elif t["k"] in ("obj", "job"):
                 for _, x in t["d"]:
                     yield {"f": "tok", "t": x}
                 for i in range(len(t["d"])):
